@@ -60,6 +60,15 @@ class World:
         self.globals: Dict[str, Any] = {}
         self.line: Optional[int] = None  # line of the statement being evaluated (for sites)
         self.categories: List[Any] = []  # category objects the adapter handed out (explanations: whose list was edited)
+        self.gens: List[Any] = []  # generator objects of the evaluated program (suspended ones are closed when the evaluation ends)
+
+    def close_generators(self) -> None:
+        for g in list(self.gens):
+            try:
+                g.close()
+            except BaseException:
+                pass
+        self.gens = []
 
     def shutdown(self) -> None:
         """Interpreter exit: handles the program left open are flushed and closed."""
@@ -1059,7 +1068,19 @@ class Runtime:
                 raise Unknown(f"decorator of {fn.name} is not modelled")
             return bad
 
+        lazy = _is_generator(fn)
+
         def call(*args, **kw):
+            if lazy and not memo:
+                # a generator function: the call binds the arguments and runs nothing; the body runs while the result is iterated
+                env = dict(self.module_env)
+                env.update(closure or {})
+                self.bind(fn, args, kw, env)
+                g = GenStub(self, fn, args, kw, closure)
+                self.world.gens.append(g)
+                return g
+            if lazy:
+                raise Unknown(f"memoised generator function {fn.name}")
             if memo:
                 key = (fn.name, args, tuple(sorted(kw.items())))
                 hash(key)
@@ -1104,7 +1125,7 @@ class Runtime:
                     raise Unknown(f"default of {fn.name}({p}): {ex}")
         return out
 
-    def call_function(self, fn: ast.FunctionDef, args: Sequence[Any], kw: Dict[str, Any], closure: Optional[Dict[str, Any]] = None) -> Any:
+    def call_function(self, fn: ast.FunctionDef, args: Sequence[Any], kw: Dict[str, Any], closure: Optional[Dict[str, Any]] = None, gen: Any = None) -> Any:
         if self.depth > 12:
             raise Unknown("call depth")
         env = dict(self.module_env)
@@ -1112,6 +1133,7 @@ class Runtime:
         env.update(self.bind(fn, args, kw, env))
         self.entered[fn.name] = fn
         ev = FuncEval(self, env)
+        ev.gen = gen
         self.depth += 1
         try:
             kind, val = ev.run(_body(fn))
@@ -1120,6 +1142,84 @@ class Runtime:
         if kind in ("continue", "break"):
             raise Unknown(f"`{kind}` outside a loop")
         return val if kind == "return" else None
+
+
+def _is_generator(fn: ast.FunctionDef) -> bool:
+    stack: List[ast.AST] = list(fn.body)
+    while stack:
+        n = stack.pop()
+        if isinstance(n, (ast.Yield, ast.YieldFrom)):
+            return True
+        if isinstance(n, (ast.FunctionDef, ast.AsyncFunctionDef, ast.Lambda, ast.ClassDef)):
+            continue
+        stack.extend(ast.iter_child_nodes(n))
+    return False
+
+
+class _GenClose(BaseException):
+    pass
+
+
+class GenStub:
+    """Generator object of the evaluated program, with the laziness of the language: nothing of the body runs before the
+    first next(), the body is suspended at every `yield` until the consumer asks again, a generator that is never iterated
+    never runs.  The body is interpreted in a thread of its own that runs only while the consumer waits in next() (strict
+    hand-over, never two at a time), so effects of body and consumer interleave exactly as they do in the program."""
+
+    def __init__(self, rt: "Runtime", fn: ast.FunctionDef, args, kw, closure):
+        import threading
+
+        self.rt, self.fn, self.args, self.kw, self.closure = rt, fn, args, kw, closure
+        self.started = self.done = self.closing = False
+        self.item: Any = None
+        self.exc: Optional[BaseException] = None
+        self.to_gen, self.to_consumer = threading.Semaphore(0), threading.Semaphore(0)
+
+    def __iter__(self):
+        return self
+
+    def __next__(self):
+        import threading
+
+        if self.done:
+            raise StopIteration
+        if not self.started:
+            self.started = True
+            threading.Thread(target=self._run, daemon=True).start()
+        else:
+            self.to_gen.release()
+        self.to_consumer.acquire()
+        if self.exc is not None:
+            e, self.exc = self.exc, None
+            raise e
+        if self.done:
+            raise StopIteration
+        return self.item
+
+    def _run(self) -> None:
+        try:
+            self.rt.call_function(self.fn, self.args, self.kw, self.closure, gen=self)
+        except _GenClose:
+            pass
+        except BaseException as ex:  # the program's exception (or 'not evaluable'): it surfaces in the consumer's next()
+            self.exc = ex
+        self.done = True
+        self.to_consumer.release()
+
+    def emit(self, v: Any) -> None:
+        """`yield v` (runs in the generator's thread): hand the value over and wait for the next request."""
+        self.item = v
+        self.to_consumer.release()
+        self.to_gen.acquire()
+        if self.closing:
+            raise _GenClose()
+
+    def close(self) -> None:
+        if self.started and not self.done:
+            self.closing = True
+            self.to_gen.release()
+            self.to_consumer.acquire()
+        self.done = True
 
 
 def _body(fn: ast.FunctionDef) -> List[ast.stmt]:
@@ -1131,6 +1231,7 @@ class FuncEval(BlockEval):
         super().__init__(rt.repo, M, env, max_steps=20000)
         self.rt = rt
         self.exc: List[BaseException] = []
+        self.gen: Any = None  # the generator object whose body this is
 
     def fold(self, e: ast.AST) -> Any:
         f = XFolder(self.repo, self.module, self.env)
@@ -1190,7 +1291,15 @@ class FuncEval(BlockEval):
         return False
 
     def _stmt(self, st: ast.stmt) -> None:
-        if isinstance(st, ast.With):
+        if isinstance(st, ast.Expr) and isinstance(st.value, (ast.Yield, ast.YieldFrom)):
+            if self.gen is None:
+                raise Unknown("`yield` outside a generator body")
+            if isinstance(st.value, ast.Yield):
+                self.gen.emit(self.fold(st.value.value) if st.value.value is not None else None)
+            else:
+                for v in self.fold(st.value.value):
+                    self.gen.emit(v)
+        elif isinstance(st, ast.With):
             mgrs = []
             try:
                 for it in st.items:
@@ -1375,7 +1484,10 @@ def evaluate(repo, tree: ast.Module, fname: str, args: Sequence[Any], kw: Dict[s
         rt = Runtime(repo, tree, world, overrides, cov, entered)
         if fname not in rt.funcs:
             return Outcome("unknown", f"function {fname} not found", world)
-        return Outcome("return", rt.module_env[fname](*args, **kw), world)  # through its decorators (a memoised anchor is called as its callers call it)
+        r = rt.module_env[fname](*args, **kw)  # through its decorators (a memoised anchor is called as its callers call it)
+        if isinstance(r, GenStub):
+            return Outcome("unknown", f"{fname} is a generator function", world)
+        return Outcome("return", r, world)
     except Unknown as ex:
         return Outcome("unknown", str(ex), world)
     except SystemExit as ex:
@@ -1384,6 +1496,8 @@ def evaluate(repo, tree: ast.Module, fname: str, args: Sequence[Any], kw: Dict[s
         return Outcome("unknown", "recursion", world)
     except Exception as ex:  # raised by the evaluated program (an interpreted builtin or a stub that models an error)
         return Outcome("raise", _scrub(f"{type(ex).__name__}: {ex}")[:160], world)
+    finally:
+        world.close_generators()
 
 
 def _scrub(s: str) -> str:
@@ -1998,6 +2112,8 @@ def check_cli(chk, fi) -> Optional[str]:
                     o = Outcome("unknown", "recursion", w)
                 except Exception as ex:
                     o = Outcome("raise", _scrub(f"{type(ex).__name__}: {ex}")[:160], w)
+                finally:
+                    w.close_generators()
                 if o.kind == "unknown":
                     why = why or f"{tag}: {o.value}"
                     continue
